@@ -703,6 +703,11 @@ IndexExact(D)  == /\ DOMAIN D.idx = {D.nodes[n].space : n \in Ids(D)}
                   /\ \A n \in Ids(D) : D.idx[D.nodes[n].space] = n
 RootOK(S, D)   == Len(D.nodes) >= 1 /\ D.nodes[1].space = S.root
 EdgesWF(D)     == \A e \in DOMAIN D.edges : e[1] \in Ids(D) /\ e[2] \in Ids(D) /\ e[1] # e[2] /\ Len(D.edges[e]) >= 1
+\* every edge leads to a strictly smaller space (so the graph is acyclic); the step functions, which propagate depths along
+\* edges, are only applied to diagrams with this property
+EdgesDescend(D) == \A e \in DOMAIN D.edges :
+                      /\ e[1] \in Ids(D) /\ e[2] \in Ids(D)
+                      /\ Sub(D.nodes[e[2]].space, D.nodes[e[1]].space) /\ D.nodes[e[2]].space # D.nodes[e[1]].space
 
 \* every node is a percolated trap space of the network
 NodesArePercolatedTraps(S, D) ==
